@@ -712,7 +712,7 @@ func runQuery(c *core.Ctx, ctx context.Context, i int, only string) {
 		c.Count("q/with_null_in_output", 1)
 		c.Count("q/"+q.shape+"/with_null_in_output", 1) // e.g. outer-join padding, aggregates over all-NULL groups
 	}
-	if i%211 == 0 {
+	if i%10 == 0 {
 		replay["outputs"] = len(outs)
 		c.Sample(replay)
 	}
